@@ -542,6 +542,12 @@ def abort_case(res: Result, spec, idx, case, events, gtables):
                                   wit, case={"idx": idx})
                     continue
                 res.count("aborts.timer-census-compared")
+                if expect == before and not txs and tr[failed - 1].get("timers") is not None \
+                        and st["timers"] != tr[failed - 1]["timers"]:
+                    res.violation("C07:timers-not-rearmed-exactly-once/" + key,
+                                  "census per state before the failed event %s, after its rollback %s" % (
+                                      tr[failed - 1]["timers"], st["timers"]), wit, case={"idx": idx})
+                    continue
             # responsiveness: later steps are processed without raw errors
             later = tr[failed + 1:]
             if any(t_["exc"] and t_["exc"] not in (
@@ -576,6 +582,94 @@ def _retarget(cfg, marker, new_target):
     walk(cfg)
 
 
+def reentry_abort_template(res: Result, engine, how, fail_on):
+    """A transition that exits AND re-enters a state owning a timer and a service, and then fails
+    deeper in the same transition (a spawn factory that yields no machine -> ActorSpawningError).
+    After the rollback the state is active as before, so the census of live timers / service
+    tasks per state must be what it was before the failed event - not doubled, not emptied."""
+    import time as _t
+    calls = {"n": 0, "svc": 0}
+    kid = create_machine({"id": "kid", "initial": "a", "states": {"a": {}}}, logic=MachineLogic())
+
+    def factory(i, c, e):
+        calls["n"] += 1
+        return None if calls["n"] == fail_on else kid
+    if engine == "async":
+        async def svc(i, c, e):
+            calls["svc"] += 1
+            await asyncio.sleep(1000)
+    else:
+        def svc(i, c, e):
+            calls["svc"] += 1
+            return 1
+    w = {"initial": "c", "after": {"900000": {"actions": ["tick"]}},
+         "invoke": {"src": "svc", "id": "job", "onDone": {"actions": ["done"]}},
+         "on": {"SELF": {"target": "w", "reenter": True}},
+         "states": {"c": {"entry": [{"type": "spawn_kidm"}], "after": {"800000": {"actions": ["tick"]}},
+                          "on": {"UP": {"target": "#m.w", "reenter": True}, "SIB": {"target": "c", "reenter": True}}}}}
+    cfg = {"id": "m", "initial": "w", "states": {"w": w}}
+    logic = MachineLogic(actions={"tick": lambda i, c, e, a: None, "done": lambda i, c, e, a: None},
+                         services={"svc": svc, "kidm": factory})
+    machine = create_machine(cfg, logic=logic)
+    ev = {"self": "SELF", "up": "UP", "sib": "SIB"}[how]
+    out = {}
+    with LogCapture(logging.ERROR) as cap:
+        if engine == "sync":
+            it = SyncInterpreter(machine).start()
+            for k in range(fail_on - 2):
+                it.send(ev)
+            out["before"] = dict(observe.live_timers(it))
+            out["cfg0"] = config_of(it)
+            try:
+                it.send(ev)
+                out["raised"] = None
+            except Exception as x:  # noqa: BLE001
+                out["raised"] = x
+            out["after"] = dict(observe.live_timers(it))
+            out["cfg1"] = config_of(it)
+            out["kids"] = len(it._actors)
+            it.stop()
+        else:
+            async def body():
+                it = Interpreter(machine)
+                await it.start()
+                await drain(it, max_yields=200)
+                for k in range(fail_on - 2):
+                    await it.send(ev)
+                    await drain(it, max_yields=200)
+                out["before"] = dict(observe.live_timers(it))
+                out["cfg0"] = config_of(it)
+                e0 = cap.count(logging.ERROR)
+                await it.send(ev)
+                await drain(it, max_yields=200)
+                out["raised"] = "logged" if cap.count(logging.ERROR) > e0 else None
+                out["after"] = dict(observe.live_timers(it))
+                out["cfg1"] = config_of(it)
+                out["kids"] = len(it._actors)
+                await it.stop()
+            run_virtual(body)
+    res.evaluations += 1
+    res.count("aborts.reentry-template")
+    res.hashes.add(h(["reentry-abort", engine, how, fail_on]))
+    wit = {"engine": engine, "event": ev, "spawn_factory_fails_on_call": fail_on, "config": cfg,
+           "census_before": out.get("before"), "census_after": out.get("after")}
+    key = "reentry/%s/%s" % (how, engine)
+    if out.get("raised") is None:
+        res.count("aborts.reentry-template.not-triggered")
+        return
+    if engine == "sync" and not isinstance(out["raised"], LIBERR):
+        res.violation("C07:abort-not-reported-as-library-error/" + key, repr(out["raised"])[:120], wit)
+        return
+    if out["cfg1"] != out["cfg0"]:
+        res.violation("C07:configuration-not-rolled-back/" + key,
+                      "before %s after %s" % (sorted(out["cfg0"]), sorted(out["cfg1"])), wit)
+        return
+    if out["after"] != out["before"]:
+        res.violation("C07:timers-not-rearmed-exactly-once/" + key,
+                      "live timers and service tasks per state before the failed event %s, after its "
+                      "rollback %s" % (out["before"], out["after"]), wit)
+
+
 def run_chunk(spec):
     observe.quiet_logs()
     res = Result()
@@ -588,6 +682,14 @@ def run_chunk(spec):
     for j in range(spec["n"]):
         wd.arm("idx=%d" % (base + j))
         enum_case(res, spec, base + j)
+    k = 0
+    for engine in ("sync", "async"):
+        for how in ("self", "up", "sib"):
+            for fail_on in (2, 3, 5):
+                if k % 16 == spec["chunk"] % 16:
+                    wd.arm("reentry template %s %s %d" % (engine, how, fail_on))
+                    reentry_abort_template(res, engine, how, fail_on)
+                k += 1
     wd.disarm()
     return res.to_json()
 
@@ -597,7 +699,7 @@ def quota(counters, tier):
     for k in ("faults.action", "faults.cb.log", "faults.hook:on_transition",
               "faults.hook:on_action_execute", "faults.hook:on_event_received", "faults.sub",
               "faults.listener", "faults.pair", "aborts.missing-action",
-              "aborts.async-action-under-sync", "aborts.unresolvable-target",
+              "aborts.async-action-under-sync", "aborts.unresolvable-target", "aborts.reentry-template",
               "aborts.triggered.sync", "aborts.triggered.async", "aborts.rollback-judged",
               "aborts.timer-census-compared"):
         if counters.get(k, 0) == 0:
